@@ -511,9 +511,23 @@ def _cint(x):
 
 
 def _range(interp, *a):
-    if len(a) == 1 and isinstance(a[0], Sym) and a[0].kind == 'int':
-        return SymRange(a[0])
-    return range(*[_cint(x) for x in a])
+    vals = []
+    for x in a:
+        if isinstance(x, Sym) and x.kind == 'int':
+            # a symbolic bound: case split on its value within a small range
+            # determined by the path condition (loop bounds such as
+            # range(i_ref + 1, len(a)) with i_ref an index)
+            v = None
+            for k in range(-2, 16):
+                if interp.ctx.branch(mk(x.t == k)):
+                    v = k
+                    break
+            if v is None:
+                raise Unsupported('symbolic range bound outside -2..15')
+            vals.append(v)
+        else:
+            vals.append(_cint(x))
+    return range(*vals)
 
 
 class SymRange:
@@ -1194,7 +1208,7 @@ def np_isclose(interp, a, b, rtol=Fraction('1e-5'), atol=Fraction('1e-8'),
 
 def np_where(interp, cond, x=None, y=None):
     if x is None:
-        raise Unsupported('np.where with one argument')
+        return np_where1(interp, cond)
     ops = interp.ops
     dc = _asdata(interp, cond)
     dx = _asdata(interp, x)
@@ -1244,7 +1258,8 @@ def np_arange(interp, *a, **kw):
     raise Unsupported('arange of non-integers')
 
 
-def np_extract(interp, cond, arr):
+def np_extract(interp, condition=None, arr=None):
+    cond = condition
     dc = _flatten(_asdata(interp, cond))
     da = _flatten(_asdata(interp, arr))
     out = []
@@ -1569,6 +1584,43 @@ def np_lstsq(interp, A, b, rcond=None):
     return (NDArr(x), NDArr(resid), k, None)
 
 
+def np_polyfit(interp, x, y, deg, **kw):
+    """assumed contract of numpy.polyfit: deg+1 coefficients, highest power
+    first; nothing is assumed about their values here (callers that need the
+    least-squares property state it as an explicit assumption)"""
+    xd = _flatten(_asdata(interp, x))
+    yd = _flatten(_asdata(interp, y))
+    if len(xd) != len(yd):
+        raise_('TypeError', 'expected x and y to have same length')
+    if len(xd) == 0:
+        raise_('TypeError', 'expected non-empty vector for x')
+    n = _cint(deg) + 1
+    ctx = interp.ctx
+    interp.ext_calls.append(('np.polyfit', xd, yd, n - 1))
+    return NDArr([Sym(ctx.fresh('polyfit_c%d' % k, 'real')) for k in range(n)])
+
+
+def np_polyval(interp, p, x):
+    ops = interp.ops
+    pd = _flatten(_asdata(interp, p))
+
+    def one(v):
+        acc = 0
+        for c in pd:
+            acc = ops.binop(ADD, ops.binop(MUL, acc, v), c)
+        return acc
+    xd = _asdata(interp, x)
+    if isinstance(xd, list):
+        return NDArr(map_arr(one, xd))
+    return one(xd)
+
+
+def np_where1(interp, cond):
+    dc = _flatten(_asdata(interp, cond))
+    idx = [k for k, c in enumerate(dc) if interp.ops.truth(c)]
+    return (NDArr(idx),)
+
+
 def external_modules(interp):
     E = {}
 
@@ -1616,6 +1668,7 @@ def external_modules(interp):
         'pi': SymConst.pi(interp), 'inf': InfV(float('inf')),
         'nan': InfV(float('nan')),
         'real': B('real', np_real), 'roots': B('roots', np_roots),
+        'polyfit': B('polyfit', np_polyfit), 'polyval': B('polyval', np_polyval),
         'isreal': B('isreal', np_isreal),
     }
     np_tab['linalg'] = _mod('numpy.linalg', {'lstsq': B('lstsq', np_lstsq)})
